@@ -76,6 +76,14 @@ class LPDB:
         self.resources = {}
         self.family_flag = {}
         for flag, row in rc.d.items():
+            if isinstance(row, (tuple, PList)) and len(row if isinstance(row, tuple) else row.items) == 3:
+                # a record (named tuple) of the same three things: told apart by what they are
+                items = list(row) if isinstance(row, tuple) else list(row.items)
+                names = [x for x in items if isinstance(x, str)]
+                lists = [x for x in items if isinstance(x, PList)]
+                funcs = [x for x in items if isinstance(x, BoundMethod)]
+                if len(names) == len(lists) == len(funcs) == 1:
+                    row = PDict({"food_name": names[0], "prefixes": lists[0], "function": funcs[0]})
             if not isinstance(row, PDict) or set(row.d) != {"food_name", "prefixes", "function"}:
                 raise AnalysisError("resource_constants row shape changed: " + str(flag))
             prefixes = row.d["prefixes"]
